@@ -94,7 +94,7 @@ func ruleQ1(c *Ctx, id string) {
 		pooled := ""
 		for v := range bwdAll(ws.sub.resolve(argN(ws.call, 2))) {
 			if cl, ok := v.(*ssa.Call); ok {
-				if cal := cl.Call.StaticCallee(); cal != nil && cal.Name() == "Get" && strings.Contains(FuncName(cal), "sync.Pool") {
+				if cal := staticCallee(cl); cal != nil && cal.Name() == "Get" && strings.Contains(FuncName(cal), "sync.Pool") {
 					pooled = P.Pos(cl.Pos())
 				}
 			}
@@ -212,7 +212,7 @@ func ruleQ1(c *Ctx, id string) {
 				if cl == rb[0].(*ssa.Call) {
 					continue
 				}
-				if cal := cl.Call.StaticCallee(); cal != nil && cal.Name() == "CloneByteSlice" {
+				if cal := staticCallee(cl); cal != nil && cal.Name() == "CloneByteSlice" {
 					if nm, fl, base, _ := loadedField(argN(cl, 0)); nm != nil && fl == "Data" && base == ssa.Value(rb[0].(*ssa.Call)) {
 						continue
 					}
@@ -235,7 +235,7 @@ func ruleQ1(c *Ctx, id string) {
 		}
 		R.Check(okAll && okVal && nVal > 0, id, "kvs.Get|answers from the journal only", P.Pos(rb[0].Pos()), "every return of Get follows the journal read, and every value it returns flows from that read", fmt.Sprintf("must-precede at every return; %d result stores, all from the read", nVal), "Get can answer without reading the journal (a cache, a 'never written' shortcut): such an answer is not ordered with the multi-puts by the journal - a stale or half-applied value can be returned for ever, and after a restart durable keys read as empty")
 		okKey := false
-		if ac, isA := stripConv(argN(rb[0], 0)).(*ssa.Call); isA && ac.Call.StaticCallee() != nil && ac.Call.StaticCallee().Name() == "MkAddr" && len(ac.Call.Args) == 2 {
+		if ac, isA := stripConv(argN(rb[0], 0)).(*ssa.Call); isA && staticCallee(ac) != nil && staticCallee(ac).Name() == "MkAddr" && len(ac.Call.Args) == 2 {
 			pm, isP := stripConv(ac.Call.Args[0]).(*ssa.Parameter)
 			off, isk := constInt(stripConv(ac.Call.Args[1]))
 			okKey = isP && pm.Parent() == get && isk && off == 0
